@@ -1,6 +1,17 @@
-(* C01 driver: scenario and observation grammar in harness/C01.cpp *)
+(* C01 driver: scenario and observation grammar in harness/C01.cpp; base statement ":k :<kind> <agree> <file> <line>" = SCheckK *)
+let ckind = function
+  | ":true" -> KTrue | ":cstreq" -> KCstrEqual | ":cstrneq" -> KCstrNEqual | ":nocaseeq" -> KCstrNoCaseEqual | ":contains" -> KCstrContains
+  | ":nocasecontains" -> KCstrNoCaseContains | ":longs" -> KLongs | ":ulongs" -> KULongs | ":llongs" -> KLongLongs | ":ullongs" -> KULongLongs
+  | ":sbytes" -> KSignedBytes | ":ptrs" -> KPointers | ":fptrs" -> KFunctionPointers | ":doubles" -> KDoubles | ":equals" -> KEquals
+  | ":binary" -> KBinary | ":binary0" -> KBinaryZero | ":bits" -> KBits | ":compare" -> KCompare | ":fail" -> KFail
+  | ":c_bool" -> CBool | ":c_int" -> CInt | ":c_uint" -> CUInt | ":c_long" -> CLong | ":c_ulong" -> CULong | ":c_llong" -> CLongLong
+  | ":c_ullong" -> CULongLong | ":c_real" -> CReal | ":c_char" -> CChar | ":c_ubyte" -> CUByte | ":c_sbyte" -> CSByte | ":c_string" -> CString
+  | ":c_pointer" -> CPointer | ":c_memcmp" -> CMemcmp | ":c_memcmp0" -> CMemcmpZero | ":c_bits" -> CBits | ":c_failtext" -> CFailText
+  | ":c_fail" -> CFail | ":c_check" -> CCheck | ":m_compare" -> MCompare
+  | t -> raise (Bad ("check kind " ^ t))
 let base c = match next c with
   | ":n" -> SNop | ":c" -> SCheck
+  | ":k" -> let k = ckind (next c) in let a = bool_tok (next c) in let f = n_tok (next c) in let l = n_tok (next c) in SCheckK (k, a, f, l)
   | ":x" -> let f = n_tok (next c) in let l = n_tok (next c) in SFailX (f, l)
   | ":j" -> let f = n_tok (next c) in let l = n_tok (next c) in SFailC (f, l)
   | ":s" -> SThrowStd | ":o" -> SThrowOther
